@@ -35,7 +35,8 @@ ASSUMPTIONS = [
 ]
 TRUSTED = ["z3 5.1", "vf.symx", "rigs", "fastavro / pyarrow / hashlib"]
 
-DAMAGES = ["absent", "prefix", "garbage", "flip", "swap", "err_always", "err_kth"]
+DAMAGES = ["absent", "prefix", "garbage", "flip", "region", "json_key", "swap", "err_always", "err_kth"]
+NREGIONS = 6
 
 
 def _scene(e):
@@ -122,6 +123,37 @@ def damaged_read(sp, rig="L", api="scan", damage="absent"):
                     if kind != "data" and _still_parses(kind, mutated):
                         # a flipped byte inside a metadata-plane file that still parses (e.g. inside a string): not 'unparseable'
                         sp.assume(False)
+        elif damage == "region":
+            # one sixth of a metadata-plane file's bytes inverted (damage INSIDE the file: header, schema, a record in the middle of
+            # the block, the trailing sync marker ...); kept only when an independent parser rejects the result
+            if kind == "data":
+                sp.assume(False)
+            raw = files[target]
+            r = sp.choose(NREGIONS, name="region")
+            lo, hi = len(raw) * r // NREGIONS, len(raw) * (r + 1) // NREGIONS
+            pos = f"{lo}..{hi}"
+            mutated = raw[:lo] + bytes(b ^ 0xFF for b in raw[lo:hi]) + raw[hi:]
+            if _still_parses(kind, mutated):
+                sp.assume(False)
+            with w.inspect():
+                st.write_file(target, mutated)
+        elif damage == "json_key":
+            # the metadata file stays valid JSON but ONE key name has a flipped bit (top level, current snapshot entry, schema entry):
+            # as table metadata it no longer parses
+            if kind != "metadata":
+                sp.assume(False)
+            import json as _json
+            doc = _json.loads(files[target].decode())
+            cur = [x for x in doc["snapshots"] if x["snapshot_id"] == doc["current_snapshot_id"]][0]
+            holders = [("", doc), ("snapshots[cur].", cur)]
+            if doc.get("schemas"):
+                holders.append(("schemas[0].", doc["schemas"][0]))
+            slots = [(pre, h, k) for pre, h in holders for k in sorted(h)]
+            pre, h, k = slots[sp.choose(len(slots), name="key")]
+            pos = pre + k
+            h[k[:-1] + chr(ord(k[-1]) ^ 1)] = h.pop(k)
+            with w.inspect():
+                st.write_file(target, _json.dumps(doc).encode())
         else:
             def mk():
                 return OSError(errno.EIO, "injected read error") if rig == "L" else cerr("InternalError", "GetObject", 500)
@@ -149,7 +181,8 @@ def damaged_read(sp, rig="L", api="scan", damage="absent"):
         tag = f"{rig}:{api}:{damage}:{kind}"
         if raised is None:
             sp.require(got == expected, f"{tag}: {target} {damage}{'' if pos is None else '@' + str(pos)}: {api} returned {got} instead of raising "
-                       f"(undamaged answer {expected})", {"sig": f"{api}:{damage}:{kind}:{'older-snapshot' if kind == 'metadata' and damage == 'absent' else 'wrong-answer'}"})
+                       f"(undamaged answer {expected})", {"sig": f"{api}:{damage}:{kind}:{'older-snapshot' if kind == 'metadata' and damage == 'absent' else 'wrong-answer'}"
+                                                          + (f":{pos}" if damage == "json_key" else "")})
             # returning the exact answer is fine only when the damage is outside what this read touches or was masked
             needs = kind in ("metadata", "mlist", "manifest") or (kind == "data" and api != "row_count")
             if damage in ("absent", "prefix", "garbage") and needs:
@@ -226,7 +259,7 @@ def obligations(tier):
         for api in APIS:
             dmgs = DAMAGES
             if tier == "quick" and rig == "S":
-                dmgs = ["absent", "garbage", "err_always"]
+                dmgs = ["absent", "garbage", "region", "err_always"]
             for d in dmgs:
                 obs.append(Ob(f"read.{rig}.{api}.{d}", "vf.props.c14:damaged_read", {"rig": rig, "api": api, "damage": d, "_must_reach": ["ran"]},
                               timeout=T, bounds=f"rig {rig}, API {api}, damage {d} applied to each reachable file (metadata file, manifest list, "
